@@ -148,6 +148,20 @@ func ruleAdmissionBalanced(c *Ctx, rid string) {
 						return true
 					}
 				}
+				// a saturation guard on the counter itself (`if n <= 0 { return }`) is not a way
+				// of keeping the slot
+				if ins == ins.Block().Instrs[0] {
+					for _, at := range factsAt(ins.Block()) {
+						if at.Kind != "lt" && at.Kind != "le" && at.Kind != "eq" {
+							continue
+						}
+						for _, v := range []ssa.Value{at.X, at.Y} {
+							if owner, f, _, ok := fieldOf(v); ok && owner+"."+f == field {
+								return true
+							}
+						}
+					}
+				}
 				if cc := callCommon(ins); cc != nil {
 					if _, isGo := ins.(*ssa.Go); isGo {
 						return false
